@@ -1,0 +1,54 @@
+//go:build verif
+
+package util
+
+// Read-only accessors used by the verification harness in /verif.
+// This file is compiled only with the build tag "verif".
+
+// VerifHTMLEscapeTable returns, for every byte, its HTML escape (nil if none).
+func VerifHTMLEscapeTable() [256][]byte {
+	var r [256][]byte
+	for i, p := range htmlEscapeTable {
+		if p != nil {
+			r[i] = *p
+		}
+	}
+	return r
+}
+
+// VerifInt8Tables returns spaceTable, punctTable, urlEscapeTable, utf8lenTable.
+func VerifInt8Tables() (space, punct, urlEscape, utf8len [256]int8) {
+	return spaceTable, punctTable, urlEscapeTable, utf8lenTable
+}
+
+// VerifUint8Tables returns urlTable and emailTable.
+func VerifUint8Tables() (url, email [256]uint8) {
+	return urlTable, emailTable
+}
+
+// VerifSpaces returns the byte set used by TrimLeftSpace/TrimRightSpace.
+func VerifSpaces() []byte {
+	return append([]byte(nil), spaces...)
+}
+
+// VerifEntities calls f for every HTML5 entity in table order.
+func VerifEntities(f func(name string, characters []byte)) {
+	buildHTML5Entities()
+	cName := 0
+	for i := 0; i < _html5entitiesLength; i++ {
+		tName := cName + int(_html5entitiesNameIndex[i])
+		name := _html5entitiesName[cName:tName]
+		f(name, _html5entitiesMap[name].Characters)
+		cName = tName
+	}
+}
+
+// VerifCaseFoldings returns the simple/full case folding map.
+func VerifCaseFoldings() map[rune][]rune {
+	return unicodeCaseFoldings
+}
+
+// VerifBytesHash exposes bytesHash.
+func VerifBytesHash(b []byte) uint64 {
+	return bytesHash(b)
+}
